@@ -169,6 +169,12 @@ Qed.
 Lemma cmp_diff_total : TotalOrder cmp_diff.
 Proof. constructor; unfold cmp_diff; intros; lia. Qed.
 
+Lemma cmp_rdiff_total : TotalOrder cmp_rdiff.
+Proof. constructor; unfold cmp_rdiff; intros; lia. Qed.
+
+Lemma cmp_diff3_total : TotalOrder cmp_diff3.
+Proof. constructor; unfold cmp_diff3; intros; lia. Qed.
+
 Lemma cmp_half_total : TotalOrder cmp_half.
 Proof.
   constructor; unfold cmp_half; intros.
